@@ -8,7 +8,7 @@ From C15 Require Import Gen_VersionTable Version VersionProofs TableCheck PreFix
 From C15 Require Arr MultiMap MultiMapProofs Table TableProofs.
 From MomoCommon Require Import GenPrelude.
 From C15 Require Gen_VersionKeeper Gen_ArrayIndexIterator Gen_ArrayShifter Gen_ArrayGuards Gen_MultiMapGuards Gen_SelectionGuards
-  Gen_TableGuards Gen_TreeIterator GuardProofs.
+  Gen_TableGuards Gen_TreeIterator Gen_SegmentedArrayGuards GuardProofs.
 Import ListNotations.
 
 (* A handle (iterator / position) whose version snapshot differs from the current version of the container it was
@@ -80,9 +80,10 @@ Theorem C15_rejected_call_is_identity :
 Proof. exact VersionProofs.rejected_call_is_identity. Qed.
 Print Assumptions C15_rejected_call_is_identity.
 
-(* Version counters never decrease along any history. *)
+(* Version counters never decrease along any history without assignments (an assignment destroys the destination's version cell:
+   see the C15_*_assign_* theorems). *)
 Theorem C15_versions_monotone :
-  forall k s ops cr v, reachable k s -> ver_of_crew s cr = Some v ->
+  forall k s ops cr v, reachable k s -> Forall (fun o => is_assign o = false) ops -> ver_of_crew s cr = Some v ->
     exists v', ver_of_crew (run k s ops) cr = Some v' /\ (v <= v')%nat.
 Proof. exact VersionProofs.versions_monotone. Qed.
 Print Assumptions C15_versions_monotone.
@@ -514,3 +515,60 @@ Theorem C15_gen_index_guards_same_code :
     Gen_TableGuards.Row_guard cnt i = Gen_SelectionGuards.SelIndex_guard cnt i /\ Gen_TableGuards.Row_guard cnt i = Gen_MultiMapGuards.RemoveKI_guard cnt i.
 Proof. exact GuardProofs.index_guards_same_code. Qed.
 Print Assumptions C15_gen_index_guards_same_code.
+
+(* ================= Grow round 2 ================= *)
+(* Generated per-path facts (vtable.py PathPass over the clang AST of the current headers -> path_facts, one row per public member function
+   instantiation of HashSet / TreeSet / HashMap / TreeMap / HashMultiMap / DataTable: the abstract states (cells structurally written,
+   cells bumped) in which a NORMAL return is reachable):
+   (1) on every path to a normal return every structurally written cell was bumped (an early return before IncVersion breaks this);
+   (2) every member the model classifies as a mutator has a normal return on which all its cells were bumped;
+   (3) const members and the model's non-modifying members write nothing and bump nothing on any path. *)
+Theorem C15_all_return_paths_bump : forallb TableCheck.path_row_ok path_facts = true.
+Proof. exact TableCheck.all_return_paths_bump_holds. Qed.
+Print Assumptions C15_all_return_paths_bump.
+Theorem C15_every_mutator_has_a_bumping_return : forallb TableCheck.path_row_mutates path_facts = true.
+Proof. exact TableCheck.every_mutator_has_a_bumping_return_holds. Qed.
+Print Assumptions C15_every_mutator_has_a_bumping_return.
+Theorem C15_nonmutators_never_write_or_bump : forallb TableCheck.path_row_pure path_facts = true.
+Proof. exact TableCheck.nonmutators_never_write_or_bump_holds. Qed.
+Print Assumptions C15_nonmutators_never_write_or_bump.
+
+(* SegmentedArray's own guard prefixes (pvGetItem = operator[], RemoveBack, Insert(index,count,item)), regenerated by cxx2coq *)
+Theorem C15_gen_segmented_guards_exact :
+  forall mCount x,
+    Gen_SegmentedArrayGuards.SegIndex_guard mCount x = (if (x <? mCount)%Z then Ok tt else Exn) /\
+    Gen_SegmentedArrayGuards.SegRemoveBack_guard mCount x = (if (x <=? mCount)%Z then Ok tt else Exn) /\
+    (GuardProofs.U64 mCount -> GuardProofs.U64 x -> forall index,
+       Gen_SegmentedArrayGuards.SegInsertN_guard mCount index x = if (mCount + x <=? 2 ^ 64 - 1)%Z then Ok tt else Exn).
+Proof. exact GuardProofs.segmented_guards_exact. Qed.
+Print Assumptions C15_gen_segmented_guards_exact.
+Theorem C15_gen_segmented_index_same_code :
+  forall c i, Gen_SegmentedArrayGuards.SegIndex_guard c i = Gen_ArrayGuards.Index_guard c i /\
+              Gen_SegmentedArrayGuards.SegRemoveBack_guard c i = Gen_ArrayGuards.RemoveBack_guard c i.
+Proof. exact GuardProofs.segmented_same_code. Qed.
+Print Assumptions C15_gen_segmented_index_same_code.
+
+(* Assignment in the hand model.  Move-assignment: afterwards the destination IS the source (same version cell, version, contents); every
+   handle of the source is untouched and exactly as valid for the destination as it was for the source; the re-created source is empty with
+   a fresh cell.  Copy-assignment: source and its handles untouched, the destination is a new container (fresh cell, version 0, same keys),
+   to which the source's handles are foreign.  In both cases the handles into the destination's destroyed version cell are dropped
+   (using them would be a use-after-free: outside the claim). *)
+Theorem C15_move_assign_source_handles_follow :
+  forall k s src i, Inv s -> hcrew (hs s i) = Some (crew (getc s src)) ->
+    let s' := fst (step k s (OMoveAssign src)) in
+    getc s' (negb src) = getc s src /\ hs s' i = hs s i /\ keys (getc s' src) = [] /\ crew (getc s' src) = newcrew s /\
+    chk_self s' (hs s' i) = chk_self s (hs s i) /\ (forall a, chk_cont (getc s' (negb src)) (hs s' i) a = chk_cont (getc s src) (hs s i) a).
+Proof. exact VersionProofs.move_assign_source_handles_follow. Qed.
+Print Assumptions C15_move_assign_source_handles_follow.
+Theorem C15_copy_assign_source_unchanged :
+  forall k s src i a, Inv s -> hcrew (hs s i) = Some (crew (getc s src)) ->
+    let s' := fst (step k s (OCopyAssign src)) in
+    getc s' src = getc s src /\ hs s' i = hs s i /\ keys (getc s' (negb src)) = keys (getc s src) /\ ver (getc s' (negb src)) = 0%nat /\
+    chk_cont (getc s' (negb src)) (hs s' i) a = false.
+Proof. exact VersionProofs.copy_assign_source_unchanged. Qed.
+Print Assumptions C15_copy_assign_source_unchanged.
+Theorem C15_assign_target_handles_dropped :
+  forall k s src i o, Inv s -> (o = OMoveAssign src \/ o = OCopyAssign src) -> hcrew (hs s i) = Some (crew (getc s (negb src))) ->
+    hs (fst (step k s o)) i = hnull.
+Proof. exact VersionProofs.assign_target_handles_dropped. Qed.
+Print Assumptions C15_assign_target_handles_dropped.
